@@ -102,6 +102,7 @@ type Conn struct {
 	readBuf        *bytes.Buffer
 	readLock       sync.Mutex
 	readReady      chan struct{}
+	readClosed     bool
 	writeLock      sync.Mutex
 	readDeadline   time.Time
 	s              *xmpp.Session
@@ -137,8 +138,10 @@ func newConn(h *Handler, s *xmpp.Session, iq openIQ, recv bool, maxBufSize int) 
 	}
 
 	return &Conn{
-		readBuf:        bytes.NewBuffer(make([]byte, 0, blockSize)),
-		readReady:      make(chan struct{}),
+		readBuf: bytes.NewBuffer(make([]byte, 0, blockSize)),
+		// The channel is buffered so that a notification sent while the reader
+		// is between checking the buffer and waiting is not lost.
+		readReady:      make(chan struct{}, 1),
 		s:              s,
 		writeBuf:       bufio.NewWriterSize(b64Writer, int(blockSize)),
 		closeFlushFunc: b64Writer.Close,
@@ -174,7 +177,7 @@ func (c *Conn) Read(b []byte) (n int, err error) {
 	// In this case wait for a signal that there is more data to read.
 	// When the connection is closed this same signal is sent and our final read
 	// from the empty buffer will result in 0, io.EOF as expected.
-	if c.readBuf.Len() == 0 {
+	for c.readBuf.Len() == 0 && !c.readClosed {
 		c.readLock.Unlock()
 		<-c.readReady
 		c.readLock.Lock()
@@ -262,7 +265,7 @@ func (c *Conn) Close() error {
 	if err != nil {
 		return err
 	}
-	close(c.readReady)
+	c.closeRead()
 	return respReadCloser.Close()
 }
 
@@ -280,8 +283,21 @@ func (c *Conn) closeNoNotify(t xmlstream.Encoder) error {
 		return err
 	}
 
-	close(c.readReady)
+	c.closeRead()
 	return c.closeFlushFunc()
+}
+
+// closeRead marks the read side as closed and wakes up a pending Read. Data
+// that arrives afterwards must be refused by the handler (which checks
+// readClosed under the same lock) instead of being signalled on the closed
+// channel.
+func (c *Conn) closeRead() {
+	c.readLock.Lock()
+	defer c.readLock.Unlock()
+	if !c.readClosed {
+		c.readClosed = true
+		close(c.readReady)
+	}
 }
 
 // SetReadBuffer sets the maximum size the internal buffer will be allowed to
